@@ -403,6 +403,7 @@ def r13e(run):
         if f"set({flag}).issubset(set(mode))" not in src:
             raise AnalysisError(f"Field.__init__ no longer validates `{flag}` against `mode`: the R13e domain is stale")
     methods = {k: v.node for k, v in P.methods.items()}
+    methods["__class_assigns__"] = dict(getattr(P, "assigns", {}) or {})
     total = 0
     for static, dynamic, attr in pairs:
         fs, fd = P.methods.get(static), P.methods.get(dynamic)
